@@ -193,6 +193,14 @@ class Run:
         self.finish(cb, args if given else ())
 
     def make_fn(self, ctx, cb):
+        cache = self.__dict__.setdefault("fn_cache", {})
+        if cb.get("twin") and cb["id"] in cache:
+            return cache[cb["id"]]          # the very same callable object, registered a second time
+        fn = self.make_fn_(ctx, cb)
+        cache[cb["id"]] = fn
+        return fn
+
+    def make_fn_(self, ctx, cb):
         run = self
         if cb["kind"] == "sync":
             def fn(*args):
